@@ -11,11 +11,16 @@ func init() {
 				return gosym.RunConfig{Name: name, PkgPath: modulePath + "/" + pkg, Entry: entry, Sched: true, Unwind: 6, AssertPrefix: "C17:",
 					Params: map[string]int64{"writes": w, "steps": 80}}
 			}
+			mkw := func(name string, r int64) gosym.RunConfig {
+				return gosym.RunConfig{Name: name, PkgPath: modulePath + "/netctx", Entry: "VerifWriteCtx", Sched: true, Unwind: 6, AssertPrefix: "C17:",
+					Params: map[string]int64{"reads": r, "steps": 80}}
+			}
 			out := []gosym.RunConfig{mk("netctx-read-w1", "netctx", "VerifReadCtx", 1), mk("connctx-read-w1", "connctx", "VerifReadCtx", 1),
 				mk("netctx-readfrom-w1", "netctx", "VerifReadFromCtx", 1),
 				// no data at all: the cancelled operation can only return through the forced deadline
 				mk("netctx-read-w0", "netctx", "VerifReadCtx", 0), mk("connctx-read-w0", "connctx", "VerifReadCtx", 0),
-				mk("netctx-readfrom-w0", "netctx", "VerifReadFromCtx", 0)}
+				mk("netctx-readfrom-w0", "netctx", "VerifReadFromCtx", 0),
+				mkw("netctx-write-r0", 0), mkw("netctx-write-r1", 1), mkw("netctx-write-r2", 2), mkw("netctx-write-r3", 3)}
 			if tier == "thorough" {
 				// two packets: explored within a time budget (reported as not covered when exceeded)
 				for _, c := range []gosym.RunConfig{mk("netctx-read-w2", "netctx", "VerifReadCtx", 2), mk("connctx-read-w2", "connctx", "VerifReadCtx", 2)} {
@@ -26,12 +31,13 @@ func init() {
 			return out
 		},
 		Bounds: func(tier string) []string {
-			return []string{"netctx.Conn.ReadContext, netctx.PacketConn.ReadFromContext and connctx.ConnCtx.ReadContext: one reader goroutine performing two ReadContext calls (first context cancelled by a canceller goroutine at an arbitrary moment, second context live), one writer goroutine delivering 0 or 1 (thorough also 2) one-byte packets, the watcher goroutines the wrapper starts; every interleaving at lock / channel / select / atomic granularity"}
+			return []string{"netctx.Conn.WriteContext: one writer goroutine performing two one-byte WriteContext calls (first context cancelled at an arbitrary moment, second live) on a wrapped connection whose Write blocks while its one-slot channel is occupied (one earlier byte in flight) or until the write deadline (real deadline.Deadline) passes, a drainer goroutine taking 0..3 bytes; every interleaving",
+				"netctx.Conn.ReadContext, netctx.PacketConn.ReadFromContext and connctx.ConnCtx.ReadContext: one reader goroutine performing two ReadContext calls (first context cancelled by a canceller goroutine at an arbitrary moment, second context live), one writer goroutine delivering 0 or 1 (thorough also 2) one-byte packets, the watcher goroutines the wrapper starts; every interleaving at lock / channel / select / atomic granularity"}
 		},
 		Assume: []string{
-			"the wrapped connection is a harness adapter over the module's packetio.Buffer (real code, with deadline.Deadline) - the composition udp.Conn uses; its Write side is not exercised",
+			"the wrapped connection is a harness adapter over the module's packetio.Buffer (real code, with deadline.Deadline) - the composition udp.Conn uses; its Write side is not exercised; for WriteContext the wrapped connection is a harness model (one-slot channel + the module's deadline.Deadline)",
 			"context.Context is a harness model: Done is closed by the canceller goroutine, Err reports Canceled exactly when Done is closed",
 			"goroutines run atomically between scheduling points; timers are a model",
 		},
-		Outside: []string{"WriteContext / WriteToContext (the write direction of both flavours)", "net.Pipe and OS sockets as the wrapped connection", "context deadlines (timeouts) as opposed to cancellation"}})
+		Outside: []string{"WriteToContext (packet flavour) and connctx WriteContext", "net.Pipe and OS sockets as the wrapped connection", "context deadlines (timeouts) as opposed to cancellation"}})
 }
